@@ -40,6 +40,20 @@ CHECKS = [
              "judged by the stateless specification and the sessions are trace-validated by TLC (Trace_SerPool).",
      "note": TLC_NOTE,
      "technique": "TLA+ state machine of the buffer pools model-checked by TLC (with mutants) + sessions on the real configuration trace-validated by TLC against the stateless spec"},
+    {"property_id": "C15", "level": "model_checking", "design_ref": "DESIGN.md §6 C15",
+     "text": "TLC model-checks ContainerWriterImpl => ContainerWriterAbs (ContainerWriter.tla: all op sequences <= 6, four block sizes, six invariants, "
+             "two model mutants caught). The real writer runs every op sequence up to length 4 over {small, big, failing-at-once, failing-after-bytes, push, "
+             "finish} closed by into_inner / drop, x block sizes x codecs (also zero-byte items); the sink is inspected after every call and each session "
+             "is validated by TLC on the real bytes (Trace_Writer: header, blocks, counts, sync, prefix-of-accepted, all-after-flush).",
+     "note": TLC_NOTE,
+     "technique": "TLA+ state machine (ContainerWriter.tla) model-checked with TLC + exhaustive op sequences on the real writer, each session trace-validated by TLC against the abstract property on bytes"},
+    {"property_id": "C16", "level": "model_checking", "design_ref": "DESIGN.md §6 C16",
+     "text": "TLC model-checks the write_all_vectored loop against every sink schedule (VectoredWrite.tla, mutant caught). The real writer is run over "
+             "sinks that accept k bytes per call, one slice per call, random mixes with Interrupted, and Interrupted / Ok(0) / hard error at every call index: "
+             "the stream must equal the all-accepting sink's, a failing sink call must surface as Err (never a panic), transient failures must leave a "
+             "valid file (Trace_Writer with err_io), and the recorded write_vectored call sequences are validated by TLC (Trace_Vectored).",
+     "note": TLC_NOTE,
+     "technique": "TLA+ model of the vectored write loop checked by TLC + scheduled sinks under the real writer, call sequences and resulting files trace-validated by TLC"},
     {"property_id": "C12", "level": "model_checking", "design_ref": "DESIGN.md §6 C12",
      "text": "TLC checks that the implementation-shaped skipping semantics (AvroSkip.tla: unvalidated strings, unsigned varints, jumping over sized blocks) "
              "ends exactly where Dec ends for every layout of every enumerated value; the real decoder is run with every sub-tree (two levels) ignored, "
